@@ -27,11 +27,18 @@ VERIF = HERE.parent
 VARIANTS = VERIF / "selftest" / "variants"
 
 
+GLOBAL_BENIGN = [
+    {"id": "global-unparse", "kind": "benign", "transform": "unparse", "why": "every module re-printed by ast.unparse (comments, layout, quotes, redundant parentheses gone)"},
+    {"id": "global-rename-locals", "kind": "benign", "transform": "rename", "why": "every local variable of every function renamed (648 names), nonlocals kept consistent"},
+    {"id": "global-instrument", "kind": "benign", "transform": "instrument", "why": "a logging.debug call inserted at the top of every function"},
+]
+
+
 def load(prop):
     p = VARIANTS / f"{prop}.json"
     if not p.exists():
         return []
-    return json.loads(p.read_text())
+    return json.loads(p.read_text()) + GLOBAL_BENIGN
 
 
 def make_scratch(root) -> Path:
@@ -45,6 +52,11 @@ def make_scratch(root) -> Path:
 
 
 def apply_variant(v, scratch: Path):
+    if v.get("transform"):
+        r = subprocess.run([sys.executable, "-B", str(VERIF / "tools" / "benign_rename.py"), str(scratch / "src"), v["transform"]], capture_output=True, text=True)
+        if r.returncode != 0:
+            return "transform failed: " + (r.stdout + r.stderr).strip()[-200:]
+        return None
     if v.get("patch"):
         pf = VERIF / v["patch"]
         if not pf.exists():
